@@ -613,7 +613,7 @@ func (p *parser) scanString(offset int) (string, error) {
 		p.read()
 		switch {
 		case chr == '\\':
-			if quote == '/' {
+			if quote == '/' || quote < 0 { // a regular expression, also inside a class
 				if p.chr == '\n' || p.chr == '\r' || p.chr == '\u2028' || p.chr == '\u2029' || p.chr < 0 {
 					goto newline
 				}
